@@ -238,7 +238,7 @@ func c03Run(c *fw.Ctx) {
 					return
 				}
 				cs := c03Case{Requests: [][]byte{a.Bytes, b.Bytes, d.Bytes}, Labels: []string{a.Label, b.Label, d.Label}}
-				scripts(cs, 0, c.Thorough())
+				scripts(cs, len(a.Bytes)+len(b.Bytes)+len(d.Bytes), c.Thorough())
 			}
 		}
 	}
